@@ -1,3 +1,140 @@
-(* C19 — property theorems (in progress). *)
-From Coq Require Import ZArith.
-Example C19_placeholder : True. Proof. exact I. Qed.
+(* C19 — the property theorems, and nothing else.
+
+   All theorems are about the S2 block-manager model (tree with the fixes for
+   F01, F02, F14, F17, F26) and hold for EVERY parameter set [P], genesis
+   filter header [gfh] and EVERY finite history [ops] of operations
+   (OHeaders, OInv, ONewPeer, ODonePeer, OWriteCF and ORollback, in any
+   order, with any arguments) from [init_state], i.e. in every reachable
+   state [reach P gfh ops].  The only hypothesis is [in_domain ops]: fewer
+   than 1,000,000 block headers delivered in total (the model converts
+   heights to list positions exactly only below that bound).  No hypothesis
+   on [trap], on the peers or on the validity of the headers is needed. *)
+From stdpp Require Import list.
+From Coq Require Import ZArith Lia.
+From Verif Require Import S2.Model C19.Spec C19.Statements C19.Proofs.
+Open Scope Z_scope.
+
+(* C19.1 — the events appended by ONE operation, exactly.  Either
+   (A) [ev_disc_only]: one disconnected event per block header the operation
+       removed ([expected_disc]: highest first, each carrying the removed
+       header's hash and height and the hash of the header below it, which is
+       the tip afterwards), nothing else, and the filter headers of the
+       removed blocks are gone with them; an operation that removes nothing
+       emits nothing; or
+   (B) [ev_conn_only]: the operation is a SUCCESSFUL filter-header write; the
+       block chain is unchanged, the filter chain is extended by the batch,
+       and exactly one connected event per newly committed filter header is
+       emitted ([expected_conn]: ascending, each carrying the hash of the block
+       at that height), nothing else. *)
+Theorem C19_events_per_step : forall P gfh ops o, in_domain (ops ++ [o]) ->
+  let s := reach P gfh ops in let s' := step P s o in
+  ev_disc_only s s' \/ ev_conn_only o s s'.
+Proof. exact events_exact. Qed.
+Print Assumptions C19_events_per_step.
+
+(* The same as one formula — the one the trace monitor (C19/Replay.v) checks:
+   disconnects of the removed headers, then connects of the committed ones. *)
+Theorem C19_events_uniform : forall P gfh ops o, in_domain (ops ++ [o]) ->
+  let s := reach P gfh ops in let s' := step P s o in
+  let Hb := map hid (chain s) in let Ha := map hid (chain s') in
+  let fb := length (fchain s) in let fa := length (fchain s') in
+  events s' = events s ++ expected_disc Hb Ha ++ expected_conn Ha (Nat.min fb fa) fa.
+Proof. exact events_uniform_exact. Qed.
+Print Assumptions C19_events_uniform.
+
+(* The case the monitor makes allowance for — a header written and rolled back
+   again within one operation (a branch's first header stored, then a
+   checkpoint mismatch in the same message), announced as disconnected
+   although it was not in the chain before — does not occur: a branch is only
+   switched to after all its headers were compared with the checkpoints, and
+   the next checkpoint is never at height 0. *)
+Theorem C19_no_phantom : forall P gfh ops o, in_domain (ops ++ [o]) ->
+  ~ ev_phantom o (reach P gfh ops) (step P (reach P gfh ops) o).
+Proof. exact no_phantom. Qed.
+Print Assumptions C19_no_phantom.
+
+(* C19.2 — in every reachable state the filter chain is non-empty and not
+   longer than the block chain, the in-memory filter tip is its height, and
+   replaying ALL emitted events from the genesis never fails and yields
+   exactly the committed chain (the blocks with committed filter headers). *)
+Theorem C19_invariant : forall P gfh ops, in_domain ops ->
+  let s := reach P gfh ops in
+  1 <= zlen (fchain s) /\ zlen (fchain s) <= zlen (chain s) /\
+  ftipVar s = zlen (fchain s) - 1 /\
+  replay [hid (genesis P)] (events s) = Some (map hid (take (length (fchain s)) (chain s))).
+Proof. exact invariant. Qed.
+Print Assumptions C19_invariant.
+
+(* C19.3 — NotificationsSinceHeight in every reachable state, for every
+   height h >= 0: height 0 yields an empty backlog; 0 < h <= filter tip
+   yields exactly the committed blocks above h (empty at h = filter tip)
+   together with the filter tip; a height above the filter tip is an error. *)
+Theorem C19_backlog_exact : forall P gfh ops h, in_domain ops -> 0 <= h ->
+  let s := reach P gfh ops in
+  notifs_since h s =
+  if h =? 0 then Some ([], ftipVar s)
+  else if h <=? ftipVar s
+       then Some (expected_backlog (map hid (chain s)) (length (fchain s)) h, ftipVar s)
+       else None.
+Proof. exact backlog_exact. Qed.
+Print Assumptions C19_backlog_exact.
+
+(* C19.4 — a subscriber that holds the chain up to a committed height h > 0,
+   is handed the backlog for h, and then receives everything emitted by ANY
+   further operations, ends with exactly the committed chain of the later
+   state; no event of the replay is rejected. *)
+Theorem C19_backlog_then_events : forall P gfh ops1 ops2 h, in_domain (ops1 ++ ops2) ->
+  let s1 := reach P gfh ops1 in let s2 := run P s1 ops2 in
+  0 < h <= ftipVar s1 ->
+  exists bl later,
+    notifs_since h s1 = Some (bl, ftipVar s1) /\
+    events s2 = events s1 ++ later /\
+    replay (map hid (take (zn h + 1) (chain s1))) (map conn_of bl ++ later) =
+      Some (map hid (take (length (fchain s2)) (chain s2))).
+Proof. exact backlog_then_events. Qed.
+Print Assumptions C19_backlog_then_events.
+
+(* Non-vacuity: a peer, two header batches and two filter-header batches
+   (heights 1-2, then 3-4 of a chain of height 6); a 4-header branch forking
+   at height 3 that removes block 4 (filter header committed) and blocks 5, 6
+   (never committed); a filter-header batch on the new branch; backlog
+   queries before and after; the backlog-then-events replay of a subscriber
+   at height 2. *)
+Definition nv_hdr (i prev t : Z) : header :=
+  {| hid := i; hprev := prev; hnum := 1; hbits := 545259519; htime := t; hver := 4 |}.
+Definition nv_P : params :=
+  {| genesis := nv_hdr 1 0 1000;
+     powLimit := 0x7fffffffffffffffffffffffffffffffffffffffffffffffffffffffffffffff; powLimitBits := 545259519;
+     bpr := 2016; minTs := 302400; maxTs := 4838400; targetTs := 1209600;
+     reduceMinDiff := false; minDiffRedTime := 1200; noRetarget := true; bip94 := false;
+     bip34h := 0; bip65h := 0; bip66h := 0; checkpoints := []; memCap := 40 |}.
+Definition nv_ops1 : list op :=
+  [ ONewPeer 1 0 100 true;
+    OHeaders 1 2000 [nv_hdr 2 1 1010; nv_hdr 3 2 1020; nv_hdr 4 3 1030];
+    OWriteCF 900 [901; 902] 3;
+    OHeaders 1 2000 [nv_hdr 5 4 1040; nv_hdr 6 5 1050; nv_hdr 7 6 1060];
+    OWriteCF 902 [903; 904] 5 ].
+Definition nv_ops2 : list op :=
+  [ OHeaders 1 2000 [nv_hdr 105 4 1041; nv_hdr 106 105 1051; nv_hdr 107 106 1061; nv_hdr 108 107 1071];
+    OWriteCF 903 [914; 915] 106 ].
+Definition nv_show (s : state) := (map hid (chain s), fchain s, ftipVar s, events s, trap s).
+
+Example C19_nonvacuous :
+  in_domain (nv_ops1 ++ nv_ops2) /\
+  let s1 := reach nv_P 900 nv_ops1 in
+  let s2 := run nv_P s1 (take 1 nv_ops2) in
+  let s3 := run nv_P s1 nv_ops2 in
+  nv_show s1 = ([1; 2; 3; 4; 5; 6; 7], [900; 901; 902; 903; 904], 4,
+                [EConn 2 1; EConn 3 2; EConn 4 3; EConn 5 4], false) /\
+  (notifs_since 2 s1, notifs_since 0 s1, notifs_since 4 s1, notifs_since 5 s1) =
+    (Some ([(4, 3); (5, 4)], 4), Some ([], 4), Some ([], 4), None) /\
+  nv_show s2 = ([1; 2; 3; 4; 105; 106; 107; 108], [900; 901; 902; 903], 3,
+                [EConn 2 1; EConn 3 2; EConn 4 3; EConn 5 4; EDisc 7 6 6; EDisc 6 5 5; EDisc 5 4 4], false) /\
+  (notifs_since 2 s2, notifs_since 3 s2, notifs_since 4 s2) = (Some ([(4, 3)], 3), Some ([], 3), None) /\
+  nv_show s3 = ([1; 2; 3; 4; 105; 106; 107; 108], [900; 901; 902; 903; 914; 915], 5,
+                [EConn 2 1; EConn 3 2; EConn 4 3; EConn 5 4; EDisc 7 6 6; EDisc 6 5 5; EDisc 5 4 4;
+                 EConn 105 4; EConn 106 5], false) /\
+  notifs_since 2 s3 = Some ([(4, 3); (105, 4); (106, 5)], 5) /\
+  replay [1; 2; 3] (map conn_of [(4, 3); (5, 4)] ++ drop (length (events s1)) (events s3)) =
+    Some [1; 2; 3; 4; 105; 106].
+Proof. split; [vm_compute; reflexivity|]. vm_compute. repeat split; reflexivity. Qed.
